@@ -143,6 +143,31 @@ pub open spec fn balanced(t: &Tracer) -> bool {
     t.tracee_ctl.delivered@.to_multiset().add(t.inject_signal_queue@.to_multiset()) =~= t.tracee_ctl.arrived@.to_multiset()
 }
 
+pub open spec fn queued(q: Seq<(Pid, Signal)>, p: Pid) -> bool { exists|i: int| 0 <= i < q.len() && (#[trigger] q[i]).0 == p }
+pub open spec fn distinct_pids(q: Seq<(Pid, Signal)>) -> bool { forall|i: int, j: int| 0 <= i < j < q.len() ==> (#[trigger] q[i]).0 != (#[trigger] q[j]).0 }
+
+/// appending entries for threads that are not queued yet (pairwise different threads) keeps the queue duplicate-free
+proof fn lemma_append_distinct(q: Seq<(Pid, Signal)>, added: Seq<(Pid, Signal)>)
+    requires distinct_pids(q), distinct_pids(added), forall|i: int| 0 <= i < added.len() ==> !queued(q, (#[trigger] added[i]).0),
+    ensures distinct_pids(q + added),
+{
+    let t = q + added;
+    assert forall|i: int, j: int| 0 <= i < j < t.len() implies (#[trigger] t[i]).0 != (#[trigger] t[j]).0 by {
+        if j < q.len() { assert(t[i] == q[i] && t[j] == q[j]); }
+        else if i < q.len() { assert(t[i] == q[i] && t[j] == added[j - q.len()]); if t[i].0 == t[j].0 { assert(queued(q, added[j - q.len()].0)); } }
+        else { assert(t[i] == added[i - q.len()] && t[j] == added[j - q.len()]); }
+    }
+}
+
+proof fn lemma_drop_last_distinct(q: Seq<(Pid, Signal)>)
+    requires distinct_pids(q), q.len() > 0,
+    ensures distinct_pids(q.drop_last()), !queued(q.drop_last(), q.last().0),
+{
+    let t = q.drop_last();
+    assert forall|i: int, j: int| 0 <= i < j < t.len() implies (#[trigger] t[i]).0 != (#[trigger] t[j]).0 by { assert(t[i] == q[i] && t[j] == q[j]); }
+    if queued(t, q.last().0) { let i = choose|i: int| 0 <= i < t.len() && (#[trigger] t[i]).0 == q.last().0; assert(t[i] == q[i]); assert(q[i].0 != q[q.len() - 1].0); }
+}
+
 proof fn lemma_push_ms(s: Seq<(Pid, Signal)>, x: (Pid, Signal))
     ensures s.push(x).to_multiset() =~= s.to_multiset().insert(x),
 {
@@ -172,7 +197,12 @@ impl Tracer {
             exists|added: Seq<(Pid, Signal)>|
                 #[trigger] (old(self).inject_signal_queue@ + added) == final(self).inject_signal_queue@
                 && final(self).tracee_ctl.arrived@ == old(self).tracee_ctl.arrived@ + added
-                && (r is Ok && quiet_stop(r->Ok_0) is Some ==> added == seq![quiet_stop(r->Ok_0)->Some_0] && quiet_stop(r->Ok_0)->Some_0.0 == status_pid(status)),
+                && (r is Ok && quiet_stop(r->Ok_0) is Some ==> added == seq![quiet_stop(r->Ok_0)->Some_0] && quiet_stop(r->Ok_0)->Some_0.0 == status_pid(status))
+                // only threads that were running can stop for a signal: the thread the status is about, or threads that are not queued
+                && distinct_pids(added)
+                && (forall|i: int| 0 <= i < added.len() ==> (#[trigger] added[i]).0 == status_pid(status) || !queued(old(self).inject_signal_queue@, added[i].0))
+                // nothing is queued unless a signal stop is reported
+                && (r is Ok && !(r->Ok_0 is Some && r->Ok_0->Some_0 is SignalStop) ==> added.len() == 0),
     { unimplemented!() }
 
 //@ extract: impl Tracer / fn single_step
@@ -180,6 +210,8 @@ impl Tracer {
 //@   attr: #[verifier::exec_allows_no_decreases_clause]
 //@   requires R_bal: balanced(old(self))
 //@   ensures E_once: r is Ok ==> balanced(final(self))
+//@   requires R_distinct: distinct_pids(old(self).inject_signal_queue@)
+//@   ensures E_distinct: r is Ok ==> distinct_pids(final(self).inject_signal_queue@)
 //@   outline O_siginfo: `sys::ptrace::getsiginfo(pid).map_err(Ptrace)?` => `outline_getsiginfo(pid)?`
 //@   outline O_trap: `matches!(status, WaitStatus::Stopped(_, Signal::SIGTRAP)) && (info.si_code == code::TRAP_TRACE || info.si_code == code::TRAP_BRKPT || info.si_code == code::SI_KERNEL || info.si_code == code::TRAP_HWBKPT)` => `outline_in_step_trap(&status, &info)`
 //@   outline O_systrap: `matches!(status, WaitStatus::Stopped(_, Signal::SIGTRAP)) && (info.si_code == 5)` => `outline_in_syscall_trap(&status, &info)`
@@ -193,8 +225,9 @@ impl Tracer {
 //@   outline O_transp: `TRANSPARENT_SIGNALS.contains(&$s)` => `outline_is_transparent(&$s)`
 //@   rewrite W_step: `self.tracee_ctl.tracee_ensure(pid).step($s)?` => `self.tracee_ctl.step_thread(pid, $s)?`
 //@   proof before `let stop = self.apply_new_status(tcx, status)?;`: let ghost q0 = self.inject_signal_queue@; let ghost a0 = self.tracee_ctl.arrived@;
-//@   proof after `let stop = self.apply_new_status(tcx, status)?;`: let added = choose|added: Seq<(Pid, Signal)>| #[trigger] (q0 + added) == self.inject_signal_queue@ && self.tracee_ctl.arrived@ == a0 + added && (quiet_stop(stop) is Some ==> added == seq![quiet_stop(stop)->Some_0] && quiet_stop(stop)->Some_0.0 == pid); lemma_add_ms(q0, added); lemma_add_ms(a0, added); assert(balanced(self)); if quiet_stop(stop) is Some { let x = quiet_stop(stop)->Some_0; assert(self.inject_signal_queue@.last() == x); lemma_drop_last_ms(self.inject_signal_queue@); lemma_push_ms(self.tracee_ctl.delivered@, x); }
+//@   proof after `let stop = self.apply_new_status(tcx, status)?;`: let added = choose|added: Seq<(Pid, Signal)>| #[trigger] (q0 + added) == self.inject_signal_queue@ && self.tracee_ctl.arrived@ == a0 + added && (quiet_stop(stop) is Some ==> added == seq![quiet_stop(stop)->Some_0] && quiet_stop(stop)->Some_0.0 == pid) && distinct_pids(added) && (forall|i: int| 0 <= i < added.len() ==> (#[trigger] added[i]).0 == status_pid(status) || !queued(q0, added[i].0)) && (!(stop is Some && stop->Some_0 is SignalStop) ==> added.len() == 0); lemma_add_ms(q0, added); lemma_add_ms(a0, added); assert(balanced(self)); assert forall|i: int| 0 <= i < added.len() implies !queued(q0, (#[trigger] added[i]).0) by { if added[i].0 == status_pid(status) { assert(status_pid(status) == pid); } } lemma_append_distinct(q0, added); assert(distinct_pids(self.inject_signal_queue@)); if quiet_stop(stop) is Some { let x = quiet_stop(stop)->Some_0; assert(self.inject_signal_queue@.last() == x); lemma_drop_last_ms(self.inject_signal_queue@); lemma_push_ms(self.tracee_ctl.delivered@, x); lemma_drop_last_distinct(self.inject_signal_queue@); assert(self.inject_signal_queue@.drop_last() =~= q0); }
 //@   loop 0 invariant I_bal: balanced(self)
+//@   loop 0 invariant I_notq: distinct_pids(self.inject_signal_queue@) && !queued(self.inject_signal_queue@, pid)
 //@ end
 }
 
